@@ -1155,6 +1155,8 @@ fn c16_scen(t: Tier) -> Vec<(&'static str, u64)> {
         // count and length fields: thousands to 70 000 samples per track / per fragment / fragments
         ("counts-progressive", t.pick(48, 800)),
         ("counts-fragmented", t.pick(2_000, 40_000)),
+        // "declared durations stay consistent with the sample tables": ordinary histories, with rejected calls in between
+        ("consistency", t.pick(100_000, 2_000_000)),
     ];
     if t == Tier::Thorough {
         // 16 recordings of about 4 GiB each, executed one at a time by worker 0
@@ -1170,6 +1172,12 @@ fn c16_gen(sc: &str, rng: &mut Rng, _t: Tier, i: u64) -> AnyCase {
         AnyCase::Frag(gen::gen_frag(rng, &FragKnobs { reject_pct: 3, boundary: true, big: false, long_pct: 1 }))
     } else if sc == "counts-fragmented" {
         AnyCase::Frag(gen::gen_frag(rng, &FragKnobs { reject_pct: 1, boundary: false, big: false, long_pct: 100 }))
+    } else if sc == "consistency" {
+        let mut k = Knobs::functional();
+        k.invalid_pct = 8;
+        k.audio_pct = 80;
+        k.long_title_pct = 0;
+        AnyCase::Prog(gen::gen_prog(rng, &k).0)
     } else if sc == "counts-progressive" {
         let mut k = Knobs::functional();
         k.long_pct = 100;
